@@ -45,10 +45,6 @@ pub fn hashmap_retain_key<F: Fn(i32) -> bool>(m: &mut HashMap<i32, u64>, f: F)
 { unimplemented!() }
 
 // srtla-protocol functions used by the core (contracts proved in unit `proto` / by Kani on the real crate)
-pub struct ConnectionInfo { pub conn_id: u32, pub window: i32, pub in_flight: i32, pub rtt_ms: u32, pub nak_count: u32, pub bitrate_bytes_per_sec: u32 }
-pub uninterp spec fn spec_keepalive_ts(buf: Seq<u8>) -> Option<u64>;
-pub uninterp spec fn spec_keepalive_info(buf: Seq<u8>) -> Option<ConnectionInfo>;
-#[verifier::external_body] pub fn extract_keepalive_timestamp(buf: &[u8]) -> (r: Option<u64>) ensures r == spec_keepalive_ts(buf@) { unimplemented!() }
 // Kani (kx: keepalive_ext_roundtrip) proves on the real builder/decoder, for every info and now:
 // len == 38, extract_keepalive_timestamp == Some(now), extract_keepalive_conn_info == Some(info), first 10 bytes == create_keepalive_packet(now)
 #[verifier::external_body] pub fn create_keepalive_packet_ext(info: ConnectionInfo, now: u64) -> (r: [u8; 38])
